@@ -376,6 +376,41 @@ func ruleMergeFraming(r *Report) {
 		for _, m := range merged {
 			walk(m)
 		}
+		// adjacency evidence: the free span's start (what is truncated at / written at) is greater than
+		// the position of the last live record — a strict comparison between two positions, not a test
+		// against a constant
+		var spanStarts []ssa.Value
+		for _, c := range callSites(fn, "(*os.File).Truncate", "os.Truncate", "(*os.File).WriteAt") {
+			a := c.Common().Args
+			spanStarts = append(spanStarts, stripIntConv(a[len(a)-1]))
+		}
+		isSpanStart := func(v ssa.Value) bool {
+			v = stripIntConv(v)
+			for _, sv := range spanStarts {
+				if sameValue(v, sv) {
+					return true
+				}
+			}
+			return false
+		}
+		adjacent := condEdges(fn, func(cond ssa.Value) (bool, bool) {
+			bo, ok := cond.(*ssa.BinOp)
+			if !ok {
+				return false, false
+			}
+			_, xc := stripIntConv(bo.X).(*ssa.Const)
+			_, yc := stripIntConv(bo.Y).(*ssa.Const)
+			if xc || yc {
+				return false, false
+			}
+			switch {
+			case bo.Op == token.GTR && isSpanStart(bo.X), bo.Op == token.LSS && isSpanStart(bo.Y):
+				return true, false
+			case bo.Op == token.LEQ && isSpanStart(bo.X), bo.Op == token.GEQ && isSpanStart(bo.Y):
+				return false, true
+			}
+			return false, false
+		})
 		n := 0
 		for _, a := range adds {
 			phi := stripIntConv(a.X).(*ssa.Phi)
@@ -384,6 +419,11 @@ func ruleMergeFraming(r *Report) {
 			}
 			inc := env.lin(a.Y)
 			n++
+			if ok, path := guarded(fn, a, mkEdgeSet(adjacent), nil); ok && len(adjacent) > 0 {
+				r.Ok(rule, shortFunc(fn)+"/merge-only-adjacent", a.Pos(), "a free record is merged into the previous span only when that span starts after the last live record")
+			} else {
+				r.BadPath(rule, shortFunc(fn)+"/merge-only-adjacent", a.Pos(), "a free record can be merged into an earlier free span without evidence that no live record lies between them (span start > last live position): the merged size word then covers a live record, which the next scan skips, treats as free and truncates or unlinks", path)
+			}
 			if inc.equal(adv) {
 				r.Ok(rule, shortFunc(fn)+"/merge-grows-by-advance", a.Pos(), "a merged free span grows by exactly what the scanner advances over ["+inc.String()+"]")
 			} else {
@@ -394,7 +434,7 @@ func ruleMergeFraming(r *Report) {
 			r.Bad(rule, shortFunc(fn)+"/merge-grows-by-advance", fn.Pos(), "no merge of adjacent free records found: the rule cannot be evaluated")
 		}
 	}
-	r.Min(rule, 5)
+	r.Min(rule, 8)
 }
 
 // isSizeOfRecord: v is the size word sw, possibly converted, with the deleted
